@@ -6,6 +6,7 @@ progressed to `t` (adapted to the consumer's tiers), i.e. has no step earlier th
 neither in flight nor scheduled — and never will have one again.
 -/
 import MosaikProofs.Sched.Errors
+import MosaikProofs.Build.RunConfig
 namespace Mosaik.C10
 open Mosaik
 
@@ -81,5 +82,29 @@ theorem lazy_forever {cfg : Cfg} (hw : WFCfg cfg) {s s' : State} (hr : Reach cfg
     (h : exec cfg s as = some s') (hnf : s'.failed = none) (q : Sid) (bound : TT) (hb : bound ≤ (s.sims q).progress) :
     bound ≤ (s'.sims q).progress :=
   TT.le_trans hb ((exec_mono hw as hr h hnf).1 q)
+
+/-- **`successors` is what the property means by "direct consumers"**: in the configuration `World.run` derives from ANY scenario built
+by valid `start` / `connect` / `set_initial_event` calls, every data connection made by `connect` - pushed (kept at the source) or
+cached (kept at the destination) - has its destination in the source's `successors` table, the table `lazy_begin` quantifies over
+(builder invariant `Build.BuiltOk.succPush` / `succPull`, by induction over the calls) -/
+theorem successors_complete_built {ops : List Build.Op} (hv : Build.Valid {} ops) {orc : List Nat} {out : List SimCfg}
+    (hc : cacheTriggeringAncestors (Build.build ops).sims orc = .ok out) (until_ maxLoop : Nat) (lazy_ useCache strict : Bool) :
+    (∀ p, p < out.length → ∀ e ∈ ((Build.runCfg out until_ maxLoop lazy_ useCache strict).sim p).push,
+      e.2.1 < out.length ∧ ∃ d, (e.2.1, d) ∈ ((Build.runCfg out until_ maxLoop lazy_ useCache strict).sim p).succs) ∧
+    (∀ q, q < out.length → ∀ e ∈ ((Build.runCfg out until_ maxLoop lazy_ useCache strict).sim q).pulled,
+      e.1 < out.length ∧ ∃ d, (q, d) ∈ ((Build.runCfg out until_ maxLoop lazy_ useCache strict).sim e.1).succs) :=
+  Build.run_config_succ_complete_of_built (Build.build_builtOk ops {} Build.builtOk_empty hv) hc until_ maxLoop lazy_ useCache strict
+
+/-- … and for those configurations (uniform trigger paths) the lazy bound holds with no hypothesis on the configuration -/
+theorem lazy_begin_built {ops : List Build.Op} (hv : Build.Valid {} ops) (hU : UniformT (Build.build ops).sims) {orc : List Nat}
+    {out : List SimCfg} (hc : cacheTriggeringAncestors (Build.build ops).sims orc = .ok out) (until_ maxLoop : Nat)
+    (useCache strict : Bool) {s s' : State} {p : Sid} (hr : Reach (Build.runCfg out until_ maxLoop true useCache strict) s)
+    (h : step (Build.runCfg out until_ maxLoop true useCache strict) s (.deps p) = some s') (hnf : s'.failed = none) :
+    ∃ t, (s.sims p).progress = t ∧ ∀ sd ∈ ((Build.runCfg out until_ maxLoop true useCache strict).sim p).succs,
+      sd.1 < (Build.runCfg out until_ maxLoop true useCache strict).n →
+      TI.act t sd.2 ≤ (s.sims sd.1).progress ∧
+      (∀ c, (s.sims sd.1).cur = some c → TI.act t sd.2 ≤ c) ∧
+      (∀ x ∈ (s.sims sd.1).next, TI.act t sd.2 ≤ x) :=
+  lazy_begin (Build.run_config_wf hv hU hc until_ maxLoop true useCache strict) rfl hr h hnf
 
 end Mosaik.C10
